@@ -46,7 +46,7 @@ func WriteBytes(b []byte) WriteFunc {
 
 func ReadBytes(b []byte) ReadFunc {
 	return func(p *encoding.Parser) (int64, error) {
-		n, err := p.Read(b)
+		n, err := io.ReadFull(p, b)
 		if err != nil {
 			return 0, err
 		}
